@@ -41,6 +41,20 @@ def key_of(n):
     return '(' + ' '.join(p for p in parts if p) + ' ' + ' '.join(key_of(c) for c in n.get('inner', []) if c.get('kind')) + ')'
 
 
+def is_mjerror_block(n):
+    """the compound statement mjERROR(...) expands to: { mjLogMessage _msg = {.level = mjLOG_ERROR, ...}; snprintf(...); mju_message(&_msg); }"""
+    if n.get('kind') != 'CompoundStmt':
+        return False
+    kids = [c for c in n.get('inner', []) if c.get('kind')]
+    if len(kids) != 3 or kids[0].get('kind') != 'DeclStmt':
+        return False
+    decl = [c for c in kids[0].get('inner', []) if c.get('kind') == 'VarDecl']
+    if len(decl) != 1 or decl[0].get('name') != '_msg':
+        return False
+    has_err = any(c.get('kind') == 'DeclRefExpr' and c['referencedDecl'].get('name') == 'mjLOG_ERROR' for c in walk(kids[0]))
+    return has_err and callee(kids[2]) == 'mju_message'
+
+
 def uses_mark(fn):
     for c in walk(fn_body(fn)):
         if callee(c) in MARK | FREE:
@@ -133,17 +147,7 @@ class Balance:
         return 'L%s' % r.get('line', '?')
 
     def is_mjerror_block(self, n):
-        """compound generated by mjERROR: declares mjLogMessage _msg with .level = mjLOG_ERROR and calls mju_message."""
-        if n.get('kind') != 'CompoundStmt':
-            return False
-        has_msg = has_err = False
-        for c in walk(n):
-            if callee(c) == 'mju_message':
-                has_msg = True
-            if c.get('kind') == 'DeclRefExpr' and c['referencedDecl'].get('name') == 'mjLOG_ERROR':
-                has_err = True
-        kids = [c for c in n.get('inner', []) if c.get('kind')]
-        return has_msg and has_err and len(kids) <= 3 and kids and kids[0].get('kind') == 'DeclStmt'
+        return is_mjerror_block(n)
 
     def stmt(self, n, states):
         """returns list of (kind, state, where)."""
